@@ -500,12 +500,14 @@ def rule_benchmarks(F, R, fns):
     skipped = []
     D = 4
     for f in fns:
-        if f.name != "do_vgrad" or not f.relfile.startswith("src/function/benchmark/") or f.is_lambda:
+        if f.name != "do_vgrad" or f.is_lambda or len(f.params) != 2 or not f.relfile.startswith(("src/", "include/")):
             continue
         X = [sym("x%d" % i) for i in range(D)]
 
         def run(with_grad):
             it = Interp(F, f, n=D)
+            if not f.relfile.startswith("src/function/benchmark/"):
+                it.member_len = 1 + D + D * (D + 1) // 2      # coefficient vector of the quadratic surrogate model
             it.env[f.params[0]["d"]] = list(X)
             G = [sym("gx%d" % i) for i in range(D)] if with_grad else []
             it.env[f.params[1]["d"]] = G
@@ -522,7 +524,7 @@ def rule_benchmarks(F, R, fns):
         if V1 is None or is_arr(V1):
             n_skip += 1
             continue
-        inst = "benchmark %s [D=%d]" % (f.cls.split("::")[-1], D)
+        inst = "%s %s [D=%d]" % ("benchmark" if f.relfile.startswith("src/function/benchmark/") else "function", f.cls.split("::")[-1], D)
         syms = sorted(sp.sympify(V1).free_symbols | set(X), key=lambda s: s.name)
         same, wit = numeric_equal(sp.sympify(V1), sp.sympify(V0), syms, rnd, points=6)
         if same is None:
@@ -599,7 +601,7 @@ def run(ctx):
              "src/function/benchmark/cauchy.cpp", "src/function/benchmark/exponential.cpp", "src/function/benchmark/dixon_price.cpp",
              "src/function/benchmark/powell.cpp", "src/function/benchmark/sargan.cpp", "src/function/benchmark/trid.cpp",
              "src/function/benchmark/zakharov.cpp", "src/function/benchmark/chung_reynolds.cpp", "src/function/benchmark/elastic_net.cpp",
-             "src/function/benchmark/quadratic.cpp", "src/function/benchmark/maxq.cpp"]
+             "src/function/benchmark/quadratic.cpp", "src/function/benchmark/maxq.cpp", "src/tuner/surrogate.cpp"]
     tus = ctx.all_tus() if ctx.thorough else sorted(set(TUS) | set(bench))
     F = ctx.facts(tus)
     fns = [f for f in F.functions.values() if not f.relfile.startswith("/")]
